@@ -133,6 +133,19 @@ CHECKS = {
         'quick': {'shards': 16, 'timeout': 900},
         'thorough': {'shards': 16, 'timeout': 5400},
     },
+    'C05': {
+        'pkg': 'internal/common', 'test': 'TestVerif_C05', 'level': 'exploration',
+        'technique': 'runtime monitor: exactly-one-read-per-message oracle on the real TLSConn and WebSocketConn (real gorilla handshake) over a segmenting in-memory network, enumerated cut positions, concurrent tagged writers, race detector',
+        'level_text': 'The real record layers run over hnet with the receive direction segmented: every single cut position and every pair of cut positions of a short three-message exchange, then 1-byte, random and coalescing segmentation for all lengths 0..64, '
+                      'the boundary lengths up to 16640 and random lengths; each Read must return exactly the next written message. Records larger than the reader\'s buffer must produce an error, never truncated data. 2..16 goroutines write checksummed tagged messages '
+                      'through one connection with yields between writes; every received message must be whole and per-writer counters gap-free.',
+        'level_note': 'Assumes ' + A_RACE + ' and ' + A_HARNESS + ' (hnet Write is atomic like a TCP socket write). For WebSocket a zero-length binary message is excluded because the API cannot distinguish it from a skipped control frame.',
+        'rule': 'case = (conn kind tls/ws, cut placement or segmentation policy, message lengths) / (kind, message length, reader buffer) / (kind, writers, GOMAXPROCS); distinct by construction; non-trivial = at least one message crossed a segment boundary or was written concurrently',
+        'exhaustive': True, 'exhaustive_scope': 'all single and paired cut positions of the short exchange for both connection kinds',
+        'assumptions': [A_RACE, A_HARNESS],
+        'quick': {'shards': 8, 'timeout': 600},
+        'thorough': {'shards': 16, 'timeout': 1800},
+    },
 }
 
 NOT_APPLICABLE = {p: 'check not built yet in this round (the design in DESIGN.md section 3 applies; runtime monitoring can decide it)'
